@@ -206,7 +206,7 @@ func r053(c *Ctx, rule string) {
 		// conditions: prefix equality with every element of options.PathPrefixes, and name inequality; nothing else
 		var sawPrefixEq, sawNameNeq bool
 		extra := 0
-		for _, ce := range condsOtherThanLoop(rc.conds) {
+		for _, ce := range condsOtherThanEmptiness(condsOtherThanLoop(rc.conds)) {
 			cm, ok := ce.asCmp()
 			if !ok {
 				extra++
